@@ -344,11 +344,14 @@ Qed.
 
 Lemma grow_cap_ge size newcap : small_size newcap -> newcap <= grow_cap size newcap.
 Proof.
-  intro Hs. unfold grow_cap, DefaultBufferSize, bufferGrowThreshold.
+  intro Hs. unfold grow_cap.
+  (* the threshold must be at least 4 for the 1.25x loop to make progress: re-checked against the
+     constant copied from ring_buffer.go *)
+  assert (Hthr : 4 <= bufferGrowThreshold) by (vm_compute; repeat constructor).
   destruct (Nat.eqb_spec size 0).
-  - destruct (Nat.leb_spec newcap 1024); [lia | apply ceil_pow2_ge, Hs].
+  - destruct (Nat.leb_spec newcap DefaultBufferSize); [lia | apply ceil_pow2_ge, Hs].
   - destruct (Nat.leb_spec newcap (size + size)); [|lia].
-    destruct (Nat.ltb_spec size 4096); [lia|].
+    destruct (Nat.ltb_spec size bufferGrowThreshold); [lia|].
     pose proof (grow_quarter_ge 256 size newcap ltac:(lia) ltac:(lia) ltac:(lia)) as Hq.
     destruct (Nat.ltb_spec 0 (grow_quarter 256 size newcap)); lia.
 Qed.
